@@ -143,5 +143,26 @@ def unit_protocol_sweep():
             finally:
                 shutil.rmtree(tmp, ignore_errors=True)
         r2 = sweep("C20/protocol/a plug-in folder class resolves by class name (plain and dotted type) like a built-in", [0], plugin_check, "bounded", "one plug-in module imported with import_plugins in a subprocess", function="interface.import_plugins + Cid._create_class", unit="C20.protocol", props=["C20"])
-        return [r1, r2]
+        # user classes resolve by name whenever they were defined: before or after other Cids were created, and after a plug-in import
+        def late_check(order):
+            import subprocess, sys, tempfile, shutil
+            tmp = tempfile.mkdtemp(prefix="vf_plugin_")
+            try:
+                with open(os.path.join(tmp, "p.py"), "w") as f: f.write("from cutplace import checks\nclass FolderCheck(checks.AbstractCheck):\n    pass\n")
+                steps = {"cid": "interface.Cid()\n", "plugins": "interface.import_plugins(%r)\n" % tmp,
+                         "define": "class LateFieldFormat(fields.AbstractFieldFormat):\n    def __init__(self, n, e, l, r, d):\n        super().__init__(n, e, l, r, d, empty_value='')\n    def validated_value(self, v):\n        return v\n"
+                                   "class LateCheck(checks.AbstractCheck):\n    pass\n"}
+                code = ("import sys; sys.path.insert(0, %r)\nfrom cutplace import interface, fields, checks\n" % os.environ.get("PYVC_REPO", "/repo")) + "".join(steps[o] for o in order)
+                code += ("cid = interface.Cid(); cid.read('c', [['d','format','delimited'],['f','a','','','','Late',''],['f','b','','','','Text',''],['c','x','Late','a']%s])\n"
+                         "print(type(cid.field_formats[0]).__name__, type(cid.check_for('x')).__name__%s)\n") % (",['c','y','Folder','a']" if "plugins" in order else "", ", type(cid.check_for('y')).__name__" if "plugins" in order else "")
+                p = subprocess.run([sys.executable, "-W", "ignore", "-c", code], capture_output=True, text=True, timeout=120)
+                want = "LateFieldFormat LateCheck" + (" FolderCheck" if "plugins" in order else "")
+                return None if p.stdout.strip().endswith(want) else {"expected": want, "observed": (p.stdout + p.stderr)[-400:]}
+            finally:
+                shutil.rmtree(tmp, ignore_errors=True)
+        orders = [("define",), ("cid", "define"), ("cid", "define", "cid"), ("plugins", "define"), ("cid", "plugins", "define"), ("define", "cid", "plugins"), ("cid", "plugins", "cid", "define", "cid")]
+        r3 = sweep("C20/protocol/user classes resolve by class name whenever they are defined (before / after other Cids, after a plug-in import)", orders, late_check, "bounded",
+                   "7 orders of {create a Cid, import a plug-in folder, define user classes} before the CID that names them is read (one subprocess each)", describe=lambda o: {"order": list(o)},
+                   function="interface.Cid.__init__ + _create_name_to_class_map + import_plugins", unit="C20.protocol", props=["C20"])
+        return [r1, r2, r3]
     return NativeUnit("C20.protocol", "bounded stand-in with real recording plug-in classes: recorded call sequence vs the protocol's prediction; plug-in folder import", ["C20"], run, kind="bounded", timeout=1800)
